@@ -9,8 +9,14 @@ exec 9>/tmp/seedrun.lock; flock 9   # one seed run at a time (shared scratch wor
 if [ ! -d $WT ]; then git -C /repo worktree add -q --detach $WT HEAD || exit 1; fi
 git -C $WT checkout -q -- . ; git -C $WT clean -fdq; git -C $WT checkout -q --detach $(git -C /repo rev-parse HEAD)
 git -C $WT apply /verif/seeded/$NAME/patch.diff || { echo "patch does not apply to HEAD"; exit 2; }
-cd /verif
+# the check runs from a scratch copy of /verif (generated Gen.v, .vo files, harness/go.mod and work/ are per copy), so a seed run
+# never disturbs checks of the unchanged tree that run at the same time
+SV=/tmp/seedrun_verif
+mkdir -p $SV
+rsync -a --delete --exclude work --exclude .git --exclude 'replays/*' --exclude '*.lock' /verif/ $SV/
+cd $SV
 VERIF_REPO=$WT ./check $PROP --tier $TIER > /tmp/seedrun_$NAME.log 2>&1; RC=$?
+cd /verif
 grep -a -v KNOWN /tmp/seedrun_$NAME.log | tail -4
 git -C $WT checkout -q -- . ; git -C $WT clean -fdq
 python3 - "$NAME" "$RC" "$TIER" "$PROP" <<'PY'
@@ -27,4 +33,4 @@ if 'verif_first_run' not in m and not isinstance(m.get('verif_check_result'),str
 json.dump(m,open(p,'w'),indent=1)
 print("caught" if viol and rc==1 else "MISSED", name)
 PY
-git -C /verif checkout -q -- evidence/$PROP.json 2>/dev/null
+true
